@@ -233,7 +233,10 @@ def check_smooth(L, m, P, c, wit, rng, si):
                     d["ctrl"][:] = eff_ctrl
                     L.call("mjd_smooth_vel", m, d, bias, ret=None)
                     D2, _ = dense_D(m, d["qDeriv"].copy())
-                    fixed = bad & (np.abs(D2 - F2) <= tol)
+                    # confirmed per entry: the clamped controls remove the mismatch (or, when another family leaves a residual
+                    # of its own on the same entry, more than 95 % of it - the residual is then diagnosed on its own below)
+                    err2 = np.abs(D2 - F2)
+                    fixed = bad & ((err2 <= tol) | (err2 <= 0.05 * err))
                     if fixed.any():
                         i, j = [int(x) for x in np.argwhere(fixed)[0]]
                         P.violation("qDeriv-differs-from-FD:actuator-term-uses-unclamped-ctrl:%s" % name,
